@@ -112,6 +112,8 @@ where
                 }
 
                 // Sleep before retry
+                #[cfg(feature = "verif-hooks")]
+                crate::verif_hooks::on_sleep(delay_ms);
                 std::thread::sleep(Duration::from_millis(delay_ms));
 
                 // Calculate next delay with exponential backoff
